@@ -188,6 +188,12 @@ class Engine:
         if strip(rhs).get('kind') == 'BinaryOperator' and strip(rhs).get('opcode') == '=':
             v = self.render(strip(rhs)['inner'][0], p)        # chained a = b = c: value of b after assignment
         lv = self.render(n['inner'][0], p, lvalue=True)
+        if re.search(r'->|\[|\*|\.', lv):
+            # a local that still holds the object's previous value must not be mistaken for the new one
+            pat = re.compile(r'(?<![\w>.])' + re.escape(lv) + r'(?![\w\[(@]|->|\.)')
+            for k_, val in list(p.env.items()):
+                if k_ != lv and isinstance(val, str) and pat.search(val): p.env[k_] = pat.sub(lambda m_: lv + '@pre', val)
+            v = pat.sub(lambda m_: lv + '@pre', v) if isinstance(v, str) and pat.search(v) and v != lv else v
         p.env[lv] = v; p.events.append(('set', lv, v, n))
         return v
 
@@ -476,7 +482,148 @@ def _fold(op, a, b):
     return None
 
 
-def summarise(tu, fname, fold_enums=False, again=True, open_paths=False):
+def summarise(tu, fname, fold_enums=False, again=True, open_paths=False, inline=True, _depth=0):
     e = Engine(tu, fname, fold_enums, again)
     e.open_paths = open_paths
-    return e, e.paths()
+    paths = e.paths()
+    if inline and _depth < 3: paths = inline_static_helpers(tu, fname, e, paths, fold_enums, _depth)
+    return e, paths
+
+
+# ---- static helpers of the same unit are spliced into their callers ----------------------------------------------
+NO_INLINE = {'get', 'cont'}          # the decoder's byte readers are summarised by the decoder rules
+
+
+def _static_helpers(tu, fname):
+    out = {}
+    for name, f in tu.functions.items():
+        if name == fname or name in NO_INLINE: continue
+        if f.get('storageClass') == 'static' and tu.own_functions().get(name) is f:
+            # helpers with loops are not spliced (their iterations would multiply the caller's paths): the call event stays
+            if any(m.get('kind') in ('ForStmt', 'WhileStmt', 'DoStmt') and not (m['kind'] == 'DoStmt' and _is_do_while_zero(m)) for m in walk(f)): continue
+            out[name] = f
+    return out
+
+
+def _is_do_while_zero(n):
+    c = n['inner'][1]
+    while c.get('kind') in ('ImplicitCastExpr', 'ParenExpr'): c = c['inner'][0]
+    return c.get('kind') == 'IntegerLiteral' and int(c.get('value', '1')) == 0
+
+
+def _subst_tokens(text, mapping):
+    """replace whole identifier tokens (not parts of a->b.c chains' field names, call symbols or loop variables)"""
+    if not isinstance(text, str) or not mapping: return text
+    def rep(m):
+        return mapping.get(m.group(0), m.group(0))
+    return re.sub(r"(?<![\w>.#@'])[A-Za-z_]\w*(?![\w#@(])", rep, text)
+
+
+def _map_event(e, f):
+    """apply f to every string of an event (targets, values, arguments), keeping the AST node at the end"""
+    def g(x):
+        if isinstance(x, str): return f(x)
+        if isinstance(x, tuple): return tuple(g(y) for y in x)
+        return x
+    return tuple(g(x) if k > 0 and k < len(e) - 1 else x for k, x in enumerate(e))
+
+
+def _const_cond(text, truth, enums):
+    """truth value of a condition between constants (after a constant argument or return value was substituted), or None"""
+    def val(tok):
+        tok = tok.strip()
+        neg = tok.startswith('-'); t = tok[1:] if neg else tok
+        if t in enums: return -enums[t] if neg else enums[t]
+        if re.fullmatch(r'\d+', t): return -int(t) if neg else int(t)
+        if tok == 'NULL': return 0
+        return None
+    m = re.fullmatch(r'\((-?\w+) (==|!=|<|<=|>|>=) (-?\w+)\)', text)
+    if m:
+        a, b = val(m.group(1)), val(m.group(3))
+        if a is None or b is None: return None
+        return {'==': a == b, '!=': a != b, '<': a < b, '<=': a <= b, '>': a > b, '>=': a >= b}[m.group(2)]
+    m = re.fullmatch(r'(-?\w+) in \[(.*)\]', text)
+    if m and val(m.group(1)) is not None:
+        items = [x.strip() for x in m.group(2).split(',')]
+        if '<default>' in items: return None
+        vals = [val(x) for x in items]
+        if None in vals: return None
+        return val(m.group(1)) in vals
+    v = val(text)
+    if v is not None: return v != 0
+    return None
+
+
+def inline_static_helpers(tu, fname, eng, paths, fold_enums, depth):
+    helpers = _static_helpers(tu, fname)
+    if not helpers: return paths
+    cache = {}
+    def callee_paths(name):
+        if name not in cache:
+            ce, cp = summarise(tu, name, fold_enums, True, False, True, depth + 1)
+            f = tu.functions[name]
+            params = [c['name'] for c in f.get('inner', []) if c.get('kind') == 'ParmVarDecl']
+            local = {d['name'] for d in walk(f) if d.get('kind') == 'VarDecl'} | set(params)
+            cache[name] = (cp, params, local)
+        return cache[name]
+    out = []; work = list(paths); budget = MAX_PATHS; offsets = {}
+    while work:
+        p = work.pop()
+        k = next((i for i, e in enumerate(p.events) if e[0] == 'call' and e[1] in helpers and not (len(e) > 5)), None)
+        if k is None: out.append(p); continue
+        call = p.events[k]; sym = call[3]
+        cp, params, local = callee_paths(call[1])
+        if len(params) != len(call[2]): out.append(p); continue          # varargs / mismatch: leave the call event alone
+        amap = {prm: (a if re.fullmatch(r"[\w#@'>.\-]+|\(.*\)|'.*'|\".*\"", a) else f'({a})') for prm, a in zip(params, call[2])}
+        off = offsets.setdefault(sym, len(offsets) + 1)          # the same call site gets the same numbering on every caller path
+        for q in cp:
+            budget -= 1
+            if budget < 0: raise AnalysisBroken(f'{fname}: more than {MAX_PATHS} paths after splicing in {call[1]}')
+            def inner(text):
+                # callee-local names are qualified, parameters become the argument expressions, call symbols are kept apart
+                t = re.sub(r"((?:\(\*\w+\)|\w+))#(\d+)", lambda m: f'{m.group(1)}#{100 * (depth + 1) + 10 * off + int(m.group(2))}', text)
+                return _subst_tokens(t, amap)
+            qe = []
+            feasible = True
+            outvals = {}          # caller variable handed in as &X  ->  the value the helper stored through the pointer
+            for e in q.events:
+                if e[0] == 'return': continue
+                e2 = _map_event(e, inner)
+                if e[0] == 'set':
+                    mo = re.fullmatch(r'\*\(?(\w+)\)?', e[1])
+                    if mo and mo.group(1) in amap and re.fullmatch(r'\(?&\w+\)?', amap[mo.group(1)]):
+                        X = amap[mo.group(1)].strip('()')[1:]
+                        outvals[X] = e2[2]
+                        qe.append(('set', X, e2[2]) + tuple(e2[3:])); continue
+                if e2[0] == 'set' and e2[1] in local and e2[1] not in amap: e2 = (e2[0], f'{call[1]}.{e2[1]}') + tuple(e2[2:])
+                if e2[0] == 'set' and e[1] in amap: e2 = (e2[0], f'{call[1]}.{e[1]}') + tuple(e2[2:])
+                if e2[0] == 'cond':
+                    t = _const_cond(e2[1], e2[2], tu.enums)
+                    if t is not None:
+                        if t != e2[2]: feasible = False; break
+                        continue
+                qe.append(e2)
+            if not feasible: continue
+            r = p.copy()
+            rv = q.ret()
+            if q.events and q.events[-1][0] == 'abort':
+                r.events = p.events[:k] + qe; work.append(r); continue
+            rvs = inner(str(rv[1])) if rv is not None and rv[1] is not None else 'void'
+            tail = []
+            def after(x):
+                for X, v in outvals.items(): x = x.replace(f'{X}@{sym}', v)
+                return re.sub(re.escape(sym) + r"(?![\w#'])", lambda m: rvs, x)
+            for e in p.events[k + 1:]:
+                e2 = _map_event(e, after)
+                if e2[0] == 'cond':
+                    t = _const_cond(e2[1], e2[2], tu.enums)
+                    if t is not None:
+                        if t != e2[2]: feasible = False; break
+                        continue
+                tail.append(e2)
+            if not feasible: continue
+            r.events = p.events[:k] + qe + tail
+            work.append(r)
+    uniq = {}
+    for p in out: uniq.setdefault(tuple(p.text()), p)
+    return list(uniq.values())
